@@ -121,7 +121,12 @@ impl FromStr for Qtype {
     type Err = &'static str;
 
     fn from_str(text: &str) -> Result<Self, Self::Err> {
-        match Caseless(text) {
+        // NOTE: a pattern like `Caseless("IN")` destructures the
+        // wrapper and compares the inner string exactly (the
+        // case-insensitive `PartialEq` impl is not consulted), so we
+        // normalize the case of the text before matching.
+        let upper = text.to_ascii_uppercase();
+        match Caseless(&upper) {
             Caseless("IXFR") => Ok(Self::IXFR),
             Caseless("AXFR") => Ok(Self::AXFR),
             Caseless("MAILB") => Ok(Self::MAILB),
@@ -198,7 +203,12 @@ impl FromStr for Qclass {
     type Err = &'static str;
 
     fn from_str(text: &str) -> Result<Self, Self::Err> {
-        match Caseless(text) {
+        // NOTE: a pattern like `Caseless("IN")` destructures the
+        // wrapper and compares the inner string exactly (the
+        // case-insensitive `PartialEq` impl is not consulted), so we
+        // normalize the case of the text before matching.
+        let upper = text.to_ascii_uppercase();
+        match Caseless(&upper) {
             Caseless("NONE") => Ok(Self::NONE),
             Caseless("ANY") => Ok(Self::ANY),
             Caseless("*") => Ok(Self::ANY),
